@@ -16,4 +16,8 @@ ENTRIES = {
   technique="bounded symbolic execution (engine A, z3): real utils encode/decode/reverse-complement/chunk/unchunk on symbolic bytes, tensor contents, chunk size and overlap",
   text="one_hot_encode/_fast_one_hot_encode/characters run on strings whose bytes are symbolic (0..127): accepted <=> all bytes in alphabet+ignore, encoding is the exact indicator, characters() inverts it (ignored -> N); reverse_complement tensor form is the involutive complement-reverse and agrees with the string form for all strings over ACGTN up to the bound; unchunk(chunk(X)) reproduces every position covered by a complete chunk for symbolic contents and every (size, overlap) with 1, 2, 3 and more chunks (size/overlap are symbolic Ints enumerated by the solver).",
   note=COMMON_NOTE + " ASCII bytes only; string length <= 3 quick / 4 thorough; sequence-length sets listed in evidence."),
+ "C10": dict(
+  technique="bounded symbolic execution (engine A, z3): real variant_effect functions with symbolic sequences and symbolic variant positions/characters",
+  text="substitution_effect / deletion_effect / insertion_effect (with the real ersatz.insert) run with func = identity recorder, symbolic sequence contents and symbolic variant positions in [0, L] and characters; the solver enumerates every position combination (<= 3 rows quick / 4 thorough, B <= 2/3, L <= 5/7, both trim sides) and proves the tensors reaching func equal the string-level edit (If-sum specification of deletion+equalising trim), the 'before' tensor is the reference trimmed from the same side, examples do not interact, out-of-range variants raise.",
+  note=COMMON_NOTE + " Non-negative positions; conflicting substitution rows and duplicate insertion positions excluded by assumption."),
 }
